@@ -28,7 +28,8 @@ MANIFEST = dict(
          'that the set is accepted iff all signatures are valid signatures of the block payload by known distinct validators and 3*signed > 2*total (as a polynomial inequality, so for all weights), '
          'including the empty set and duplicates; node-id and payload derivations are checked as terms.'
          " Signatures of the wrong length (PyNaCl's own ValueError, a CryptoError) never count as valid."
-         ' A threshold written in a form the polynomial normal form does not identify with 3*signed > 2*total (integer division, a pre-computed quorum) is decided on a grid of weight vectors instead - bounded.',
+         ' A threshold written in a form the polynomial normal form does not identify with 3*signed > 2*total (integer division, a pre-computed quorum) is decided on a grid of weight vectors instead - bounded.'
+         ' The validator set may be handed over as a single-pass iterable.',
     note='trusted: interpreter, polynomial normaliser, the Ed25519 oracle model (nacl is not analysed), collision-freeness of SHA-256 (distinct terms = distinct ids). Not decided: larger validator sets (the loop bodies are uniform).',
     design_ref='DESIGN.md section 4 C12')
 
